@@ -50,7 +50,7 @@ class Tracer:
     """Wraps one Scheduler. After run(), .trace holds [(op, obs|None)], .jobs the job order."""
 
     def __init__(self, sched: Scheduler, ex: ControlledExecutor, rng: random.Random, resources: list[str],
-                 complete_prob=0.3, fifo=True, priority=None):
+                 complete_prob=0.3, fifo=True, priority=None, chooser=None):
         self.s, self.ex, self.rng = sched, ex, rng
         self.resources = resources
         self.res_id = {r: i for i, r in enumerate(resources)}
@@ -67,6 +67,7 @@ class Tracer:
         self.vals = Intern()
         self.complete_prob = complete_prob
         self.priority = priority     # optional list of spec names: complete the held job named earliest
+        self.chooser = chooser       # optional callable(list of held jobs) -> index
         self.deadlock = False
         self.status = {}
         self.last_cache_type = None
@@ -255,6 +256,8 @@ class Tracer:
                 except Exception:
                     return len(self.priority)
             idx = min(range(len(self.ex.held)), key=lambda i: rank(self.ex.held[i]))
+        if self.chooser:
+            idx = self.chooser(self.ex.held)
         job = self.ex.held.pop(idx)
         args, kwargs = job.args
         self.from_executor = True
@@ -328,7 +331,7 @@ def cq_trace(trace):
 
 # ---------------------------------------------------------------------- running one program
 def run_program(expr_builder, limits: dict, rng: random.Random, dryrun=False, complete_prob=0.3,
-                db_path=None, cache=True, context=None, priority=None):
+                db_path=None, cache=True, context=None, priority=None, chooser=None):
     """Returns dict(trace, result|error, deadlock, tracer)."""
     resources = sorted(limits)
     cfg = {"backend": {"db_uri": f"sqlite:///{db_path}" if db_path else "sqlite:///:memory:"},
@@ -337,7 +340,7 @@ def run_program(expr_builder, limits: dict, rng: random.Random, dryrun=False, co
     s = Scheduler(config=Config(cfg), executor=ex)
     s.load()
     s.logger.disabled = True
-    tr = Tracer(s, ex, rng, resources, complete_prob=complete_prob, priority=priority)
+    tr = Tracer(s, ex, rng, resources, complete_prob=complete_prob, priority=priority, chooser=chooser)
     out = {"tracer": tr, "scheduler": s}
     try:
         out["result"] = s.run(expr_builder(), dryrun=dryrun, cache=cache, context=context or {})
